@@ -161,6 +161,17 @@ func (hc *HeaderChain) WriteHeader(header *types.Header) (status WriteStatus, er
 	if ptd == nil {
 		return NonStatTy, consensus.ErrUnknownAncestor
 	}
+	// Make sure the whole ancestry down to the canonical chain is present. A
+	// rewind (SetHead) deletes the canonical headers above its target but leaves
+	// side branches that grew on them; re-routing the canonical chain onto such
+	// an orphaned branch must be refused instead of walking into a nil header.
+	for ancHash, ancNumber := header.ParentHash, number-1; GetCanonicalHash(hc.chainDb, ancNumber) != ancHash; {
+		ancestor := hc.GetHeader(ancHash, ancNumber)
+		if ancestor == nil || ancNumber == 0 {
+			return NonStatTy, consensus.ErrUnknownAncestor
+		}
+		ancHash, ancNumber = ancestor.ParentHash, ancNumber-1
+	}
 	localTd := hc.GetTd(hc.currentHeaderHash, hc.CurrentHeader().Number.Uint64())
 	externTd := new(big.Int).Add(header.Difficulty, ptd)
 
